@@ -511,6 +511,18 @@ pub fn expected_frames(events: &[RefEvent]) -> Vec<Exp> {
                 (Err(_), Err(_)) if !e.is_done_certain_or_possible() => {
                     out.push(Exp::Provider { status: Some("invalid_json"), data: None, raw: None, name: e.name.clone() })
                 }
+                // the value starts with whitespace that JSON does not know (U+0085, U+00A0, VT, FF,
+                // U+2028 ...): the one-space reading is not JSON, the all-whitespace-stripped reading
+                // is. Which reading applies is as undocumented as for ASCII blanks; the decoder
+                // strips, so its reading is followed here (this keeps the frames aligned; nothing
+                // beyond "same frames for every chunking" is claimed for such a payload)
+                (Err(_), Ok(b)) => {
+                    let text = derived_text(&b);
+                    out.push(Exp::Provider { status: Some("event"), data: Some(b), raw: None, name: e.name.clone() });
+                    if let Some(t) = text {
+                        out.push(Exp::Text(t));
+                    }
+                }
                 _ => out.push(Exp::Provider { status: None, data: None, raw: None, name: None }),
             }
         }
